@@ -54,7 +54,7 @@ func init() {
 			return &opaqueBytes{n: fr.i.lift(a[0])}
 		},
 		rt + "Choice": func(fr *frame, a []value) value {
-			return fr.i.choose(int(fr.i.concInt(a[0], "Choice-n")), a[1].(string))
+			return fr.i.choose(int(fr.i.concInt(a[0], "Choice-n")), "h:"+a[1].(string))
 		},
 		rt + "Assume": func(fr *frame, a []value) value {
 			fr.i.assume(fr.i.boolTerm(a[0]))
